@@ -38,11 +38,31 @@ def tier_cfg(tier):
 
 
 def gen_workload(tape, cfg, entries=sr.ENTRIES):
-    spec = gg.gen_graph(tape, max_nodes=cfg["max_nodes"])
+    if tape.chance(1, 8, "forest"):
+        # a family built to saturate 3 workers with batches of 2 (see gen_graph_forest)
+        spec = gg.gen_graph_forest(tape)
+        rcfg = sr.gen_cfg(tape, entries)
+        rcfg["num_workers"], rcfg["chunksize"] = 3, 2
+        req_json = spec["nodes"][-1]["key"]
+        return spec, req_json, gg.req_keys(req_json, {gg.K(n["key"]) for n in spec["nodes"]}), rcfg
+    wide = tape.chance(1, 6, "wide")
+    if wide:
+        # many independent tasks, 3-5 workers, batches of 2 or 3: rounds in which tasks are ready
+        # while every worker is taken by batches of different sizes
+        if tape.chance(1, 2, "layered"):
+            spec = gg.gen_graph_layered(tape, max_nodes=cfg["max_nodes"] + 6)
+        else:
+            spec = gg.gen_graph_wide(tape, max_leaves=cfg["max_nodes"] + 2)
+    else:
+        spec = gg.gen_graph(tape, max_nodes=cfg["max_nodes"])
     keyset = {gg.K(n["key"]) for n in spec["nodes"]}
     req_json = gg.gen_request(tape, spec)
     request = gg.req_keys(req_json, keyset)
     rcfg = sr.gen_cfg(tape, entries)
+    if wide:
+        with tape.span("widecfg"):
+            rcfg["num_workers"] = 3 + tape.draw(3, "wnw")
+            rcfg["chunksize"] = 2 + tape.draw(2, "wcs")
     return spec, req_json, request, rcfg
 
 
